@@ -87,7 +87,7 @@ CLAIMED['C10'] = dict(
    design_ref="5/C10")
 CLAIMED['C17'] = dict(
    category='proof',
-   text="Kernel-checked for the decoder, ALL strings / tables / flags, no side condition (props/C17.v, proofs/AttrFacts.v): decoder(x, attribute=False) equals decoder(x, attribute=True) with the attribution erased - same outcome (value or exception class), same string, same output indices and tokens (simulation between the two runs through derivation, ring pass and writer); and the decoder's entries are TRUTHFUL (C17_decoder_attribution_truthful; proofs/AttrOut.v, AttrIn.v, AttrFinal.v): every output token is found in the output string ending at the reported character index, every contributing input token is the symbol at the reported position of the input ([nop] and '.' not counted), and every atom entry is attributed to its enclosing branch symbols followed by the atom symbol that created it. Not theorems, decided per input on every run: the encoder side (non-interference and SELFIES atom symbol attributed to its SMILES atom token), judged with independent tokenisations; attribution lists of both directions are compared entry by entry with the model (multi-fragment, [nop]-padded, truncated indices, many rings).",
+   text="Kernel-checked for the decoder, ALL strings / tables / flags, no side condition (props/C17.v, proofs/AttrFacts.v): decoder(x, attribute=False) equals decoder(x, attribute=True) with the attribution erased - same outcome (value or exception class), same string, same output indices and tokens (simulation between the two runs through derivation, ring pass and writer); and the decoder's entries are TRUTHFUL (C17_decoder_attribution_truthful; proofs/AttrOut.v, AttrIn.v, AttrFinal.v): every output token is found in the output string ending at the reported character index, every contributing input token is the symbol at the reported position of the input ([nop] and '.' not counted), and every atom entry is attributed to its enclosing branch symbols followed by the atom symbol that created it. The ENCODER's non-interference is a theorem too (C17_encoder_attribute_erased, C17_encoder_same_string; proofs/EncErase.v): for ALL SMILES, tables and strict, encoder(s, attribute=False) is encoder(s, attribute=True) with the attribution erased - same outcome, same string, same indices and tokens (erasure commutes with every operation of the reader, kekulize, strict check, inversion pass and emitting walk). Not a theorem, decided per input on every run: that each SELFIES atom symbol is attributed to the SMILES atom token it was made from, judged with independent tokenisations; attribution lists of both directions are compared entry by entry with the model (multi-fragment, [nop]-padded, truncated indices, many rings).",
    technique="Coq proof (simulation: erasing attribution commutes with every decoder step; invariants for the truthfulness of every stored attribution through derivation, ring pass and writer) + exact correspondence of attribution lists with the model + independent-tokenisation oracle",
    design_ref="5/C17")
 CLAIMED['C19'] = dict(
